@@ -1,6 +1,7 @@
 package main
 
 import (
+	"context"
 	"fmt"
 	"math"
 
@@ -243,6 +244,35 @@ func vendingScenario(s *hx.Seq) {
 							}
 						}
 					}
+				}
+			}
+		}
+	}
+	// ---- a dispense that leaves the quantity out (a request without it is a request all the same), through the model
+	// and through the server: no panic; an error leaves the stock as it was, success dispensed nothing
+	for _, usedPresent := range []bool{false, true} {
+		for _, remPresent := range []bool{false, true} {
+			for _, server := range []bool{false, true} {
+				used, rem := qty{usedPresent, units[0], 2}, qty{remPresent, units[len(units)-1], 5}
+				name := fmt.Sprintf("stock{used=%v,remaining=%v} dispense without a quantity (server=%v)", used, rem, server)
+				s.Eval(1)
+				s.Trans(1)
+				s.State(name)
+				m := vendingpb.NewModel(vendingpb.WithInitialStock(&traits.Consumable_Stock{Consumable: "milk", Used: used.pb(), Remaining: rem.pb()}))
+				var err error
+				if p := guard(func() {
+					if server {
+						_, err = vendingpb.NewModelServer(m).Dispense(context.Background(), &traits.DispenseRequest{Name: "v", Consumable: "milk"})
+					} else {
+						_, err = m.DispenseInstantly("milk", nil)
+					}
+				}); p != nil {
+					s.Fail("panic "+name, fmt.Sprintf("the dispense panicked: %v", p), nil)
+					continue
+				}
+				cur, _ := m.GetStock("milk")
+				if showQ(cur.Used) != showQ(used.pb()) || showQ(cur.Remaining) != showQ(rem.pb()) {
+					s.Fail("dispense-without-quantity-changed-stock "+name, fmt.Sprintf("answered %v; stock now used=%s remaining=%s", err, showQ(cur.Used), showQ(cur.Remaining)), nil)
 				}
 			}
 		}
